@@ -157,6 +157,13 @@ def check_config(c):
             Yn, inn, _, _, _, _ = run(c, seed, T, n, False, vld)
             res.check(ref.core_bytes(Yn) == ref.core_bytes(states[n]) and inn.get('nswp') == n and inn.get('stop') == 'nswp', 'prefix', dict(case, nswp=n),
                       lambda: 'nswp=%d is not the %d-th state of the longer run (stop=%r)' % (n, n, inn.get('stop')), tags)
+        # the observer must not matter: the same run WITHOUT the harness's callback returns the same tensor and the same report
+        res.ev()
+        Yq, iq, _, _, _, _ = run(c, seed, T, NS, False, vld, None)
+        keys = ('nswp', 'stop', 'm', 'e', 'e_vld', 'r', 'm_cache')
+        diff = [k for k in keys if not (iq.get(k) == iu.get(k) or (isinstance(iq.get(k), float) and isinstance(iu.get(k), float) and np.isnan(iq.get(k)) and np.isnan(iu.get(k))))]
+        res.check(ref.core_bytes(Yq) == ref.core_bytes(Yu) and not diff, 'no_callback.same', case,
+                  lambda: 'without a callback the run differs: info fields %s (%s vs %s)' % (diff, [iq.get(k) for k in diff], [iu.get(k) for k in diff]), tags)
         # two stop criteria together: an accuracy threshold that may or may not be reached never lifts the sweep limit; when it stops the
         # run earlier, the result is the state of that sweep
         for e_thr in (1e-14, 1e-3):
